@@ -150,7 +150,12 @@ Init ==
   /\ row = Empty /\ last = Empty /\ q = <<>> /\ hist = <<>> /\ n = 0 /\ rounds = 0
   /\ stored = FALSE /\ done = FALSE
 
-(* ---- store(workflow): everything is INSERTed as given ---- *)
+(* ---- store(workflow): everything is INSERTed as given.  The code has two ways to insert a stage: with its workflow
+   (store) and on its own (add_stage, used for synthetic and multi-instance stages): "add_stage" = the workflow is stored
+   with stage 1 only and stage 2 is added afterwards - one meaning in this model.  Every retrieve / retrieve_stage of a
+   case is made twice by the replayer: through the writer's connection and through an independent one (another worker);
+   both must return the expected image. ---- *)
+StoreHow(r) == <<"store", "add_stage">>[((r \div 2) % 2) + 1]
 StoreWorkflow(r) ==
   /\ Mode = "stage" /\ ~stored /\ ~done
   /\ LET w  == n + 1
@@ -158,7 +163,7 @@ StoreWorkflow(r) ==
                  st |-> [s \in Stages |-> Tokens(StageFields, Names(StageFields), w, r, 11 * s)],
                  tk |-> [s \in Stages |-> [i \in 1..NTasks(s, r) |-> NewTask(i, w, r, 13 * s)]]]
      IN /\ row' = img /\ last' = img
-        /\ hist' = hist \o <<[op |-> "store", w |-> w, r |-> r, ids |-> IdClass(r), img |-> img],
+        /\ hist' = hist \o <<[op |-> "store", w |-> w, r |-> r, ids |-> IdClass(r), how |-> StoreHow(r), img |-> img],
                              [op |-> "retrieve", expect |-> img]>>
         /\ n' = w
   /\ stored' = TRUE
@@ -222,13 +227,21 @@ PushPair(first, t, r) ==           \* the same message through both paths
   /\ n' = n + 2 /\ rounds' = rounds + 1
   /\ UNCHANGED <<row, last, stored, done>>
 
-(* ---- end of a case: in queue mode every message is polled (FIFO) and acknowledged ---- *)
+(* ---- end of a case: in queue mode every message is polled (FIFO) and acknowledged.  Every other rotation the
+   first delivery is NOT acknowledged: the consumer scribbles over the object it was handed and dies, the lock
+   lapses, and the message is delivered again - from what was stored, i.e. with the values it was pushed with. ---- *)
+PollOps(m) == LET e == [type |-> m.type, f |-> m.f]
+              IN IF m.r % 2 = 0 THEN <<[op |-> "poll", ack |-> FALSE, expect |-> e], [op |-> "poll", ack |-> TRUE, expect |-> e]>>
+                 ELSE <<[op |-> "poll", ack |-> TRUE, expect |-> e]>>
+RECURSIVE Polls(_)
+Polls(i) == IF i > Len(q) THEN <<>> ELSE PollOps(q[i]) \o Polls(i + 1)
+
 Finish ==
   /\ ~done
   /\ \/ Mode = "stage" /\ stored /\ rounds = MaxRounds
      \/ Mode = "queue" /\ rounds >= 1
   /\ hist' = IF Mode = "queue"
-             THEN hist \o [i \in DOMAIN q |-> [op |-> "poll", expect |-> [type |-> q[i].type, f |-> q[i].f]]]
+             THEN hist \o Polls(1)
              ELSE hist
   /\ q' = IF Mode = "queue" THEN <<>> ELSE q
   /\ done' = TRUE
